@@ -106,7 +106,8 @@ def gen_case(rng):
         t = gen_typ(rng)
         params.append({"name": nm, "typ": t, "doc": rng.choice(DOCS), "default": gen_default(rng, t)})
     return {"params": params, "doc": rng.choice(["", "Prose description of the thing.", "Two lines\nof prose."]),
-            "with_return": rng.random() < 0.3, "return_shape": rng.choice(["typ+doc", "typ+doc", "typ", "doc"])}
+            "with_return": rng.random() < 0.3, "return_shape": rng.choice(["typ+doc", "typ+doc", "typ", "doc"]),
+            "return_doc": rng.choice(["the result", "the result", "exit status: 0 on success", "the pair (count, label); count first"])}
 
 
 def to_ir(case):
@@ -120,7 +121,7 @@ def to_ir(case):
         ir["params"][p["name"]] = e
     if case["with_return"]:
         shape = case.get("return_shape", "typ+doc")
-        ir["returns"] = OrderedDict((("return_type", {k: v for k, v in (("typ", "int"), ("doc", "the result")) if k in shape}),))
+        ir["returns"] = OrderedDict((("return_type", {k: v for k, v in (("typ", "int"), ("doc", case.get("return_doc", "the result"))) if k in shape}),))
     return ir
 
 
@@ -163,6 +164,46 @@ def worker(batch):
             r_ = (back.get("returns") or {}).get("return_type")
             return s2, {k: dict(v) for k, v in back["params"].items()}, back.get("doc"), (None if r_ is None else {k: r_.get(k) for k in ("typ", "doc") if r_.get(k) is not None})
         impl.append(guarded(f, c, 20))
+    # json_schema_file: what is WRITTEN for one / several descriptions is what json_schema returns for each of them
+    import os
+    import tempfile
+    i = 0
+    sizes = [1, 2, 3, 2]
+    while i < len(batch):
+        group = batch[i:i + sizes[(i + len(batch[0]["params"])) % 4]]
+        i += len(group)
+
+        def g(cases):
+            d = tempfile.mkdtemp(prefix="verif-c06f-")
+            try:
+                fn = os.path.join(d, "out.json")
+                with contextlib.redirect_stderr(io.StringIO()):
+                    want = [json.loads(json.dumps(cdd.json_schema.emit.json_schema(copy.deepcopy(to_ir(c))))) for c in cases]
+                    mapping = OrderedDict()
+                    for k, c in enumerate(cases):
+                        ir = copy.deepcopy(to_ir(c))
+                        ir["name"] = "Thing%d" % k
+                        mapping["Thing%d" % k] = ir
+                    for k, w in enumerate(want):
+                        w["$id"] = w["$id"].replace("Thing", "Thing%d" % k) if isinstance(w.get("$id"), str) else w.get("$id")
+                    cdd.json_schema.emit.json_schema_file(mapping, fn)
+                got = json.load(open(fn))
+                got = got["schemas"] if len(cases) > 1 else [got]
+                return want, got
+            finally:
+                import shutil
+                shutil.rmtree(d, ignore_errors=True)
+        st, v = guarded(g, group, 20)
+        if st != "ok":
+            if not any(guarded(lambda c_: cdd.json_schema.emit.json_schema(copy.deepcopy(to_ir(c_))), c, 10)[0] != "ok" for c in group):
+                out["items"].append({"cls": "C06/file/raises", "case": group[0], "detail": str(v)[:200]})
+            continue
+        want, got = v
+        for c, w, g_ in zip(group, want, got):
+            if w != g_:
+                keys = sorted(k for k in set(w) | set(g_) if w.get(k) != g_.get(k))
+                out["items"].append({"cls": "C06/file/written-schema-differs/" + "+".join(keys), "case": c,
+                                     "detail": "of %d description(s) written to one file: returned %r, written %r" % (len(group), {k: w.get(k) for k in keys}, {k: g_.get(k) for k in keys})})
     models = call_many("js_emit", [[[p["name"], [enc_typ(p["typ"]), p["doc"], enc_default(p["default"])]] for p in c["params"]]
                                    for c in batch])
     for c, (st, v), m in zip(batch, impl, models):
